@@ -444,6 +444,8 @@ class Fn:
             if op == "+":
                 return v
             if op == "!":
+                if isinstance(v, IntConst):
+                    return IntConst(int(not v.v))
                 return "(negb %s)" % self.boolean(v)
             raise Unsupported("unary %s at %s" % (op, self.where(n)))
         if k == "BinaryOperator":
